@@ -20,7 +20,12 @@ pub fn bodies() -> Vec<(&'static str, Body)> {
         ("if_chain_plain", crate::c06_ifexpr::if_chain_plain::<ReplaySource> as Body),
         ("if_chain_boxed", crate::c06_ifexpr::if_chain_boxed::<ReplaySource> as Body),
         ("if_branch", crate::c06_ifexpr::if_branch::<ReplaySource> as Body),
-        ("if_branch_light", crate::c06_ifexpr::if_branch_light::<ReplaySource> as Body),
+        ("if_branch_result_leaf", crate::c06_ifexpr::if_branch_result_leaf::<ReplaySource> as Body),
+        ("if_branch_result_call", crate::c06_ifexpr::if_branch_result_call::<ReplaySource> as Body),
+        ("if_branch_result_varargs", crate::c06_ifexpr::if_branch_result_varargs::<ReplaySource> as Body),
+        ("if_branch_result_not", crate::c06_ifexpr::if_branch_result_not::<ReplaySource> as Body),
+        ("if_branch_result_minus", crate::c06_ifexpr::if_branch_result_minus::<ReplaySource> as Body),
+        ("if_branch_result_length", crate::c06_ifexpr::if_branch_result_length::<ReplaySource> as Body),
         ("se_prefix_simple", crate::c08_steps::se_prefix_simple::<ReplaySource> as Body),
         ("se_prefix_nested", crate::c08_steps::se_prefix_nested::<ReplaySource> as Body),
         ("se_field", crate::c08_steps::se_field::<ReplaySource> as Body),
